@@ -326,6 +326,58 @@ Section Exact.
     repeat split; auto; lia.
   Qed.
 
+  (* the fields that split and concatenate copy *)
+  Lemma asplit_fields c t0 early c1 c2 :
+    asplit c t0 early = Ok (c1, c2) ->
+    cdtype (abase c1) = cdtype (abase c) /\ ckind (abase c1) = ckind (abase c) /\ ctarget (abase c1) = ctarget (abase c) /\
+    cdtype (abase c2) = cdtype (abase c) /\ ckind (abase c2) = ckind (abase c) /\ ctarget (abase c2) = ctarget (abase c).
+  Proof.
+    unfold asplit. intros H.
+    destruct (if _ =? _ then _ else _) as [[[d1 d2] t']|]; [|discriminate].
+    bind_inv H. bind_inv H. bind_inv H. inversion H; subst.
+    apply mk_achunk_ok in Hx0 as (-> & _). apply mk_achunk_ok in Hx1 as (-> & _). cbn. repeat split; reflexivity.
+  Qed.
+
+  Lemma aconcatenate_fields c1 c2 allow c :
+    aconcatenate [Some c1; Some c2] allow = Ok c ->
+    cdtype (abase c) = cdtype (abase c1) /\ ckind (abase c) = ckind (abase c1) /\
+    ctarget (abase c) = Z.max (Z.max (ctarget (abase c1)) (ctarget (abase c1))) (ctarget (abase c2)).
+  Proof.
+    unfold aconcatenate. cbn [somes]. intros H.
+    destruct (negb _); [discriminate|]. destruct (_ && _); [discriminate|].
+    bind_inv H. bind_inv H. destruct (negb _); [discriminate|].
+    apply mk_achunk_ok in H as (-> & _). cbn. repeat split; reflexivity.
+  Qed.
+
+  (* concat_split_inverse on exact superrun chunks: whenever a split succeeds and its halves can be
+     concatenated, the result is the chunk that was split -- rows, range, run id, sub- and superrun spans *)
+  Theorem asplit_aconcatenate_id c t0 early c1 c2 allow c' :
+    exactc c -> asplit c t0 early = Ok (c1, c2) -> aconcatenate [Some c1; Some c2] allow = Ok c' -> c' = c.
+  Proof.
+    intros Hc Hs Hcat.
+    destruct (asplit_exact c t0 early c1 c2 Hc Hs) as (H1 & H2 & Hadj & Hst & Hen).
+    destruct (aconcatenate_exact c1 c2 allow c' H1 H2 Hadj Hcat) as (Hc' & Hst' & Hen').
+    pose proof (asplit_rows _ _ _ _ _ Hs) as Hrows. pose proof (aconcatenate_rows _ _ _ Hcat) as Hrows'.
+    destruct (asplit_fields _ _ _ _ _ Hs) as (Hd1 & Hk1 & Ht1 & Hd2 & Hk2 & Ht2).
+    destruct (aconcatenate_fields _ _ _ _ Hcat) as (Hd & Hk & Ht).
+    destruct Hc as (Hr & Hab & Hlo & Hhi & Hsub & Hsup). destruct Hc' as (Hr' & Hab' & Hlo' & Hhi' & Hsub' & Hsup').
+    unfold rows_a in *. cbn [somes rows_of_stream flat_map] in Hrows'. rewrite app_nil_r in Hrows'.
+    destruct c as [b sub sup]. destruct c' as [b' sub' sup'].
+    destruct b as [a e rows dt k run tgt]. destruct b' as [a' e' rows' dt' k' run' tgt'].
+    cbn [abase asub asuper cstart cend crows cdtype ckind crun ctarget] in *.
+    assert (Ea : a' = a) by congruence. assert (Ee : e' = e) by congruence.
+    f_equal; [f_equal| |].
+    - exact Ea.
+    - exact Ee.
+    - congruence.
+    - congruence.
+    - congruence.
+    - congruence.
+    - lia.
+    - rewrite Hsub', Hsub, Ea, Ee. reflexivity.
+    - rewrite Hsup', Hsup, Ea, Ee. reflexivity.
+  Qed.
+
   Ltac rsplit := repeat match goal with |- _ /\ _ => split end.
 
   (* consecutive chunks touch *)
